@@ -522,6 +522,9 @@ def _real_stage(stage, big=False):
             return (lambda c: tuple(eas.altDec(c["beta"], c["tauBeta"], c["tauLorentz"], c["u"]))), cols
 
         def kernel(beta, a, E, lat, lon, cloudf=None):  # per-event function of the event's own values
+            # (like the real CphotAng.__call__, which zips its five columns: a longer column is silently truncated)
+            n_ = min(len(beta), len(a), len(E), len(lat), len(lon))
+            beta, a, E, lat, lon = (np.asarray(x)[:n_] for x in (beta, a, E, lat, lon))
             return 1e3 * np.sin(beta) * (1 + a) * E * (2 + np.cos(lat + lon)), 0.5 + 0.4 * np.cos(beta + a + lat) ** 2
 
         eas.CphotAng = kernel
